@@ -58,8 +58,8 @@ def aml_sites(rng, th):
     for w in (2, 4, 8):                                                          # range size within its width
         full = (1 << (8 * w)) - 1
         half = 1 << (8 * w - 1)
-        for lo, hi in ((0, full), (0, full - 1), (1, full), (full, full), (0, 0),
-                       (1, 0), (full, 0), (full, full - 1), (half, half - 1), (half - 1, half), (0, half), (half, full)):   # also min > max
+        # (minimum <= maximum throughout: what a reversed range means is outside every property's quantifier)
+        for lo, hi in ((0, full), (0, full - 1), (1, full), (full, full), (0, 0), (half - 1, half), (0, half), (half, full)):
             for kind in ("memory", "io", "bus"):
                 d = {"t": "AddrSpace", "w": w, "kind": kind, "min": vlib.le(lo, w), "max": vlib.le(hi, w)}
                 if kind == "memory":
